@@ -138,7 +138,32 @@ def operator_call(em, n, rd, args):
     return None
 
 
+def _obj_norm(em, obj):
+    try:
+        t = T.strip_quals(T.strip_ref(T.parse(qt(obj))))
+    except T.TypeParseError:
+        return ''
+    return norm_name(t[1]) if t[0] == 'n' else ''
+
+
 def member_call(em, n, callee, obj, args, rd):
+    nm = callee.get('name')
+    on = _obj_norm(em, obj)
+    o = em.E(obj) if not callee.get('isArrow') else '(*%s)' % em.E(obj)
+    if on.startswith('atomic<'):
+        # M-atomic: sequential reading of std::atomic (DESIGN.md 3.1); C14/C18 state the consequence
+        em.lowerings['M-atomic(%s)' % nm] += 1
+        if nm == 'load':
+            return '(%s)' % o
+        if nm == 'store' and len(args) >= 1:
+            return '(%s = %s)' % (o, em.E(args[0]))
+        if nm == 'compare_exchange_strong' and len(args) >= 2:
+            e = em.E(args[0])
+            return '((%s == %s) ? (%s = %s, (_Bool)1) : (%s = %s, (_Bool)0))' % (o, e, o, em.E(args[1]), e, o)
+        raise ExtractError('unmodelled atomic member ' + str(nm))
+    hook = em.opts.get('member_call_extra')
+    if hook:
+        return hook(em, n, callee, obj, args, rd, nm, on, o)
     return None
 
 
